@@ -775,6 +775,7 @@ func r06b(c *core.Ctx) {
 		// err must be result #1 of exchangeConn(_, conn) in the same function, and the call post-dominates it
 		ok := false
 		desc := core.Expr(errA)
+		errA = core.Unspill(errA)
 		if ex, isEx := errA.(*ssa.Extract); isEx && ex.Index == 1 {
 			if call, isCall := ex.Tuple.(*ssa.Call); isCall && core.StaticCallee(call) == exc {
 				sameConn := boundValue(call.Call.Args[2]) == boundValue(conn) && boundValue(conn) != nil
